@@ -114,11 +114,20 @@ def confirm(mod, viol):
     return res
 
 
-def run(prop_id, tier, seed, procs, budget=None):
+def run(prop_id, tier, seed, procs, budget=None, only_slice=None):
     t0 = time.time()
     mod = _load(prop_id)
     level = mod.LEVEL
     plan = mod.plan(tier, seed)
+    if only_slice:
+        # development aid (never used by MANIFEST commands): explore only the slices whose name contains the filter;
+        # such a run writes its evidence to the scratch directory, not to /verif/evidence
+        plan = [sh for sh in plan if only_slice in sh["slice"]]
+        if not plan:
+            raise InternalError(f"no slice of {prop_id}/{tier} matches {only_slice!r}")
+        global EVIDENCE_DIR
+        if not os.environ.get("VERIF_REPO_SRC"):
+            EVIDENCE_DIR = os.path.join(os.environ.get("VERIF_SCRATCH_OUT", "/tmp/verif-scratch-out"), "evidence")
     # plan: list of shard dicts, each with key "slice"
     if seed:
         # the seed only rotates the order in which shards are handed out
@@ -345,6 +354,7 @@ def main(argv=None):
     ap.add_argument("--replay")
     ap.add_argument("--procs", type=int, default=int(os.environ.get("VERIF_PROCS", "16")))
     ap.add_argument("--budget", type=float, default=None)
+    ap.add_argument("--slice", default=None, help="development aid: only slices whose name contains this string")
     args = ap.parse_args(argv)
     prop_id = args.prop.upper()
     try:
@@ -354,7 +364,7 @@ def main(argv=None):
     try:
         if args.replay:
             return do_replay(prop_id, args.replay)
-        return run(prop_id, args.tier, seed, args.procs, args.budget)
+        return run(prop_id, args.tier, seed, args.procs, args.budget, args.slice)
     except InternalError as exc:
         sys.stderr.write("INTERNAL ERROR: %s\n" % exc)
         return 2
